@@ -11,8 +11,12 @@ pub struct Activation {
     pub enter_idx: usize,
     pub exit_idx: usize,
     pub ok: bool,
+    /// the parser state's own lookahead flag at exit (not used for the verdict)
     pub lookahead: u8,
     pub atomicity: u8,
+    /// polarity derived from the log: inside an odd number of negative predicates
+    pub under_negation: bool,
+    pub in_lookahead: bool,
 }
 
 pub const LOOKAHEAD_NEGATIVE: u8 = 1;
@@ -24,9 +28,10 @@ impl Activation {
         if self.atomicity == ATOMIC {
             return None;
         }
-        if !self.ok && self.lookahead != LOOKAHEAD_NEGATIVE {
+        // polarity comes from the nesting of the lookahead calls in the log, not from the state's own flag
+        if !self.ok && !self.under_negation {
             Some(false) // positive ("expected")
-        } else if self.ok && self.lookahead == LOOKAHEAD_NEGATIVE {
+        } else if self.ok && self.under_negation {
             Some(true) // negative ("unexpected")
         } else {
             None
@@ -40,17 +45,25 @@ fn strip(s: &str) -> String {
 
 /// Rebuilds the activations, in exit order. Err = the log is not well nested (a hook problem).
 pub fn activations(events: &[Event]) -> Result<Vec<Activation>, String> {
-    let mut open: Vec<(String, usize, usize)> = vec![];
+    let mut open: Vec<(String, usize, usize, bool, bool)> = vec![];
     let mut out = vec![];
+    let mut looks: Vec<bool> = vec![];
     for (i, e) in events.iter().enumerate() {
         match e {
-            Event::RuleEnter { rule, pos, .. } => open.push((strip(rule), *pos, i)),
+            Event::LookaheadEnter { positive } => looks.push(*positive),
+            Event::LookaheadExit => {
+                looks.pop();
+            }
+            Event::RuleEnter { rule, pos, .. } => {
+                let negs = looks.iter().filter(|p| !**p).count();
+                open.push((strip(rule), *pos, i, negs % 2 == 1, !looks.is_empty()))
+            }
             Event::RuleExit { rule, ok, start, lookahead, atomicity, .. } => {
-                let Some((r, p, ei)) = open.pop() else { return Err(format!("exit of {rule} without enter at event {i}")) };
+                let Some((r, p, ei, under_negation, in_lookahead)) = open.pop() else { return Err(format!("exit of {rule} without enter at event {i}")) };
                 if r != strip(rule) || p != *start {
                     return Err(format!("exit of {rule}@{start} does not match open {r}@{p}"));
                 }
-                out.push(Activation { rule: r, start: p, enter_idx: ei, exit_idx: i, ok: *ok, lookahead: *lookahead, atomicity: *atomicity });
+                out.push(Activation { rule: r, start: p, enter_idx: ei, exit_idx: i, ok: *ok, lookahead: *lookahead, atomicity: *atomicity, under_negation, in_lookahead });
             }
             _ => {}
         }
